@@ -107,6 +107,8 @@ def attenuated(tier, carrier='list_none', tcarrier='dt64'):
                     variants = [dict()]
                     if n >= 2:
                         variants += [dict(test_period=20), dict(test_period=25, min_obs=2), dict(test_period=30, min_period=20)]
+                        if (s, f) == (2, 1):
+                            variants += [dict(test_period=Fr(41, 2))]      # a period that is not a whole number of seconds (20.5 s)
                     if n >= 4 and ct == 'range' and (s, f) == (2, 1):
                         # irregular axis: the sampling step used for min_period is the median step
                         for tt in ([100, 110, 120, 130, 230, 240][:n], [100, 200, 210, 220, 230, 240][:n]):
